@@ -166,6 +166,19 @@ Theorem c18_bert_slices_relock : forall v g k, synced v = false -> state v < 512
 Proof. exact bert_slices_relock_lemma. Qed.
 Print Assumptions c18_bert_slices_relock.
 
+(** 10. every state reachable through the API (construction with any history content, reset(), generate(), validate() of
+        any bit) has a 9-bit register, sync_count <= 17, hist_pos < 128 and 16 history bytes: so the hypotheses of 6'', 6'''
+        cover every reachable unsynced state, and every history[hist_pos >> 3] access is inside the array *)
+Theorem c18_reachable_invariant :
+  (forall h, length h = 16%nat -> reach_inv (prbs_new h)) /\
+  (forall v, reach_inv (prbs_reset v)) /\
+  (forall v, reach_inv v -> reach_inv (fst (prbs_generate v))) /\
+  (forall v b, reach_inv v -> reach_inv (fst (prbs_validate v b))) /\
+  (forall v, reach_inv v -> (N.to_nat (N.shiftr (hist_pos v) 3) < length (history v))%nat).
+Proof. split; [exact reach_inv_new|]. split; [exact reach_inv_reset|]. split; [exact reach_inv_generate|].
+  split; [exact reach_inv_validate|exact reach_inv_index]. Qed.
+Print Assumptions c18_reachable_invariant.
+
 Theorem c18_bert_frame_bits : ConstsPrbs.bert_bits_mod = 197%nat /\ ConstsPrbs.bert_bits_demod = 197%nat /\ bert_frame_bits = 197%nat.
 Proof. repeat split. Qed.
 Print Assumptions c18_bert_frame_bits.
